@@ -20,6 +20,7 @@ ASSUMPTIONS = [
 def build(policy):
     s = core.sdn()
     popped = policy.endswith("+pop")
+    renamed = policy.endswith("+ren")
     policy = policy.split("+")[0]
     s.namespace_manager.default = policy
     ids = itertools.count()
@@ -58,6 +59,16 @@ def build(policy):
             # a history: one of the two naming keys was popped again (the other must stay findable)
             for el in (p, c, x):
                 el.pop("EDIF.identifier" if nm_ == "A" else ".NAME")
+    if renamed:
+        # a history of renames (query -> edit -> query): r0 becomes q9; a goes away and comes back; identifiers too
+        for grp in (da.ports, da.cables, da.children):
+            for el in list(grp):
+                if el.name == "r0":
+                    el.name = "q9"
+                    el["EDIF.identifier"] = el["EDIF.identifier"] + "x"
+                elif el.name == "a":
+                    el.name = "tmp_a"
+                    el.name = "a"
     mid = tagit(lab.create_definition(name="a"), "v")
     mid.create_child(name="a", reference=da)
     mid.create_child(name="ab", reference=da)
@@ -209,7 +220,7 @@ def worker(case):
                     if v:
                         pats |= {v, v.swapcase(), v[:1] + "*", v[:-1] + "?", "?" * len(v)}
                 pats |= set([v for v in vals if "[" in v][:8])   # names carrying a bus index
-                pats |= {"zz", "*", "a*", "A*"}
+                pats |= {"zz", "*", "a*", "A*", "r0", "q9", "tmp_a"}
                 single = sorted(pats)
                 multi = [("a", "a*"), ("a*", "a"), ("a", "A"), ("a", "a"), ("zz", "a"), ("r[0]", "a*"), ("a*", "r[0]"), ("r[0]", "r0")]
                 for v in [x for x in vals if x][-2:]:
@@ -273,7 +284,7 @@ ROOTS = ("netlist", "library", "definition", "instance", "port", "cable", "inner
 
 def cases(tier):
     out = []
-    for policy in ("DEFAULT", "EDIF", "DEFAULT+pop", "EDIF+pop"):
+    for policy in ("DEFAULT", "EDIF", "DEFAULT+pop", "EDIF+pop", "DEFAULT+ren", "EDIF+ren"):
         for fname in FUNCS:
             for rname in ROOTS:
                 for lookup_on in (True, False):
